@@ -305,6 +305,9 @@ class CompMixin:
     b['max'] = B('max', _b_max)
     b['bool'] = B('bool', lambda ex, a, k, n: V(S.BOOL, ex.truth(a[0])))
     b['True'] = Vl.bval(True)
+    b['NotImplemented'] = Vl.Sentinel('NotImplemented')
+    b['hash'] = B('hash', _b_hash)
+    b['id'] = B('id', lambda ex, a, k, n: Vl.ival(id(a[0])))
     b['False'] = Vl.bval(False)
     # spec-only
     b['implies'] = B('implies', lambda ex, a, k, n: V(S.BOOL, z3.Implies(ex.truth(a[0]), ex.truth(a[1]))))
@@ -481,3 +484,37 @@ def _b_fresh(ex, a, k, n):
   if org is not None and org[0] == 'field':
     org = org[3]
   return Vl.bval(org is None)
+
+
+_HASH_FNS = {}
+
+
+def _b_hash(ex, a, k, n):
+  """hash(x): an uninterpreted function of the *value* (A-LIB: equal values hash equally).
+
+  For sets the SMT value is extensional, so equal sets hash equally; for tuples it
+  is a function of the sequence of elements.
+  """
+  v = a[0]
+  if isinstance(v, PyTuple):
+    v = ex.seq_of([ex.coerce(i, S.STR) if isinstance(i, PyStr) else i for i in v.items])
+  if isinstance(v, PyStr):
+    v = ex.coerce(v, S.STR)
+  if not isinstance(v, V):
+    raise Unsupported('hash(%r)' % (v,))
+  s = v.sort
+  mm = ex.theory.method_models.get((s.name, '__hash__'))
+  if mm:
+    return mm(ex, v, [], {})
+  if s.name not in _HASH_FNS:
+    _HASH_FNS[s.name] = z3.Function('hash_' + S._mangle(s.name), s.z3(), z3.IntSort())
+  if isinstance(s, S.Seq):
+    # canonical: depends on len and the elements below len only
+    h = _HASH_FNS[s.name]
+    o = s.fresh('o')
+    key = ('seqax', s.name)
+    if key not in _HASH_FNS:
+      _HASH_FNS[key] = True
+      p = s.fresh('p')
+      ex.theory.axioms.append(z3.ForAll([o, p], z3.Implies(s.eq(o, p), h(o) == h(p))))
+  return V(S.INT, _HASH_FNS[s.name](v.t))
